@@ -388,6 +388,52 @@ Section SerFail.
   Qed.
 End SerFail.
 
+(** ** TimeBasedConnection.ResolveEdges hands over every edge its getter answered, once *)
+Section TimeConnProofs.
+  Variable E : Type.
+
+  Lemma join_edges_ok (pls : list (list E)) acc :
+    join_edges E (map (fun l => Ok l) pls) acc = Ok (acc ++ concat pls).
+  Proof.
+    revert acc. induction pls as [|l r IH]; intro acc; cbn [map join_edges concat].
+    - rewrite app_nil_r. reflexivity.
+    - rewrite IH, app_assoc. reflexivity.
+  Qed.
+
+  Lemma time_collect_delivers answers ls :
+    Forall2 (delivers E) answers ls ->
+    forall edges pls, exists L,
+      delivers E (time_collect E answers edges (map (fun l => Ok l) pls)) L /\
+      Permutation L (edges ++ concat pls ++ concat ls).
+  Proof.
+    induction 1 as [|r l answers ls Hd HF IH]; intros edges pls.
+    - cbn [time_collect concat]. rewrite app_nil_r. destruct pls as [|p pr].
+      + exists edges. split; [left; reflexivity|]. cbn [concat]. rewrite app_nil_r. apply Permutation_refl.
+      + exists (edges ++ concat (p :: pr)). split; [|apply Permutation_refl].
+        right. cbn [map]. f_equal. f_equal. exact (join_edges_ok (p :: pr) edges).
+    - destruct Hd as [-> | ->]; cbn [time_collect concat].
+      + destruct (IH (edges ++ l) pls) as [L [HL HP]]. exists L. split; [exact HL|].
+        eapply Permutation_trans; [exact HP|].
+        rewrite <- app_assoc. apply Permutation_app_head.
+        rewrite !app_assoc. apply Permutation_app_tail. apply Permutation_app_comm.
+      + replace (map (fun l0 => Ok l0) pls ++ [Ok l]) with (map (fun l0 : list E => Ok l0) (pls ++ [l]))
+          by (rewrite map_app; reflexivity).
+        destruct (IH edges (pls ++ [l])) as [L [HL HP]]. exists L. split; [exact HL|].
+        eapply Permutation_trans; [exact HP|].
+        rewrite concat_app. cbn [concat]. rewrite app_nil_r, <- !app_assoc. apply Permutation_refl.
+  Qed.
+
+  (** whatever mixture of direct answers and promises the getter uses: ResolveEdges hands over a
+      permutation of the concatenation of all answers — nothing dropped, nothing twice *)
+  Theorem time_resolve_edges_delivers answers ls :
+    Forall2 (delivers E) answers ls ->
+    exists L, delivers E (time_resolve_edges E answers) L /\ Permutation L (concat ls).
+  Proof.
+    intro H. destruct (time_collect_delivers answers ls H [] []) as [L [HL HP]].
+    exists L. split; [exact HL | exact HP].
+  Qed.
+End TimeConnProofs.
+
 (** ** Direction *)
 Section Direction.
   Variables C E : Type.
